@@ -405,6 +405,224 @@ theorem reaccept_journal (div : Dec → Dec → Dec) (st st' : Settings) (rs : L
   exact mapMS_sim acceptTxn (rawOf div) (fun r => ∀ rp ∈ r.posts, UnitNE rp.unit) (fun t => ∀ p ∈ t.posts, DivExact div p)
     (fun s r t s' h1 h2 h3 => reaccept div s s' r t h3 h1 h2) rs st st' ts h hne hdiv
 
+/-! ## what the acceptor produces is well-formed -/
+
+/-- lexical well-formedness of a parsed posting -/
+structure RawPostingLex (rp : RawPosting) : Prop where
+  acct : ∃ parts, PartsWF parts ∧ rp.acct = toPath parts ∧ acctOk parts = true
+  amount : NumWF rp.amount
+  unit : ∀ u, rp.unit = some u → IdentWF u.comm.toList ∧ isValidId u.comm.toList = true ∧
+    (∀ v, (u.closing = some (.total v) ∨ u.closing = some (.unitPrice v)) →
+      IdentWF v.comm.toList ∧ isValidId v.comm.toList = true ∧ NumWF v.value)
+  comment : ∀ c, rp.comment = some c → LineText c.toList
+
+theorem identWF_ne_empty (s : String) (h : IdentWF s.toList) : s ≠ "" := by
+  intro e; subst e
+  obtain ⟨c, t, hc, _⟩ := h
+  simp at hc
+
+theorem mul_wf (a b t : Dec) (h : Dec.mul a b = some t) : t.scale ≤ 28 ∧ t.coeff ≤ max96 := by
+  unfold Dec.mul at h
+  split at h
+  · cases h; simp [Dec.zero, max96]
+  · split at h
+    · rename_i hc; cases h; exact hc
+    · cases h
+
+theorem sumFrom_wf : ∀ (l : List Dec) (acc s : Dec), acc.scale ≤ 28 → acc.coeff ≤ max96 →
+    (∀ d ∈ l, d.scale ≤ 28 ∧ d.coeff ≤ max96) → Dec.sumFrom acc l = some s → s.scale ≤ 28 ∧ s.coeff ≤ max96 := by
+  intro l
+  induction l with
+  | nil => intro acc s h1 h2 _ h; simp [Dec.sumFrom] at h; subst h; exact ⟨h1, h2⟩
+  | cons d t ih =>
+    intro acc s h1 h2 hall h
+    simp only [Dec.sumFrom] at h
+    split at h
+    · rename_i r hr
+      have hd := hall d List.mem_cons_self
+      exact ih r s (Dec.add_units acc d r h1 hd.1 hr).2 (Dec.add_coeff acc d r h2 hd.2 hr)
+        (fun x hx => hall x (List.mem_cons_of_mem _ hx)) h
+    · cases h
+
+/-- one accepted value-carrying posting is printable -/
+theorem handlePosting_wf (div : Dec → Dec → Dec) (st st2 : Settings) (rp : RawPosting) (p : Posting)
+    (h : handlePosting st rp = .ok (p, st2)) (hl : RawPostingLex rp)
+    (hd : p.isTotal = false → NumWF (div p.txnAmount p.amount)) :
+    PostingWF div p ∧ p.txnAmount.scale ≤ 28 ∧ p.txnAmount.coeff ≤ max96 := by
+  unfold handlePosting at h
+  split at h
+  · cases h
+  · cases h
+  · rename_i st1 hreg
+    split at h
+    · cases h
+    · cases h
+    · rename_i vp hvp
+      split at h
+      · cases h
+      · cases h
+      · rename_i a st2' hacct
+        obtain ⟨q, hq, hqe⟩ := (Outcome.map_ok _ _ _).mp h
+        cases hqe
+        obtain ⟨rfl, _⟩ := C01.mkPosting_ok _ _ hq
+        have ha := C01.gocta_acct _ _ _ _ _ hacct
+        subst ha
+        have hs := C01.valuePosition_spec _ _ _ hvp
+        cases hu : rp.unit with
+        | none =>
+          rw [hu] at hvp
+          simp only [valuePosition] at hvp
+          cases hvp
+          exact ⟨⟨hl.acct, hl.amount, Or.inl rfl, fun _ => rfl, fun h => absurd rfl h, hl.comment⟩, hl.amount.1, hl.amount.2.1⟩
+        | some u =>
+          obtain ⟨huid, huv, hcl⟩ := hl.unit u hu
+          rw [hu] at hvp
+          cases hc : u.closing with
+          | none =>
+            simp only [valuePosition, hc] at hvp
+            split at hvp
+            · cases hvp
+            · cases hvp
+              exact ⟨⟨hl.acct, hl.amount, Or.inr ⟨huid, huv⟩, fun e => absurd e (identWF_ne_empty _ huid),
+                fun _ h => absurd rfl h, hl.comment⟩, hl.amount.1, hl.amount.2.1⟩
+          | some cl =>
+            cases cl with
+            | total v =>
+              obtain ⟨hvid, hvv, hvn⟩ := hcl v (Or.inl hc)
+              simp only [valuePosition, hc] at hvp
+              split at hvp
+              · cases hvp
+              · split at hvp
+                · cases hvp
+                · split at hvp
+                  · cases hvp
+                  · cases hvp
+                    exact ⟨⟨hl.acct, hl.amount, Or.inr ⟨huid, huv⟩, fun e => absurd e (identWF_ne_empty _ huid),
+                      fun _ _ => ⟨hvid, hvv, by simpa using hvn⟩, hl.comment⟩, hvn.1, hvn.2.1⟩
+            | unitPrice v =>
+              obtain ⟨hvid, hvv, hvn⟩ := hcl v (Or.inr hc)
+              simp only [valuePosition, hc] at hvp
+              split at hvp
+              · cases hvp
+              · split at hvp
+                · cases hvp
+                · split at hvp
+                  · cases hvp
+                  · split at hvp
+                    · rename_i t ht
+                      cases hvp
+                      have hm := mul_wf _ _ _ ht
+                      exact ⟨⟨hl.acct, hl.amount, Or.inr ⟨huid, huv⟩, fun e => absurd e (identWF_ne_empty _ huid),
+                        fun _ _ => ⟨hvid, hvv, by simpa using hd rfl⟩, hl.comment⟩, hm.1, hm.2⟩
+                    · exact absurd hvp (Outcome.inexact_ne_ok _ _)
+
+/-- lexical well-formedness of a parse tree (what `Syntax.parseJournal` yields; checked by the tie) -/
+structure RawLex (r : RawTxn) : Prop where
+  ts : TsOK r.header.ts = true
+  header : HeaderWF r.header
+  posts : ∀ rp ∈ r.posts, RawPostingLex rp
+  last : ∀ a c, r.last = some (a, c) →
+    (∃ parts, PartsWF parts ∧ a = toPath parts ∧ acctOk parts = true) ∧ (∀ x, c = some x → LineText x.toList)
+
+theorem txnComm_lex (div : Dec → Dec → Dec) (p : Posting) (h : PostingWF div p) :
+    p.txnComm = "" ∨ (IdentWF p.txnComm.toList ∧ isValidId p.txnComm.toList = true) := by
+  by_cases h1 : p.txnComm = ""
+  · exact Or.inl h1
+  · by_cases h2 : p.txnComm = p.comm
+    · rw [h2]
+      rcases h.comm with hc | hc
+      · exact Or.inl hc
+      · exact Or.inr hc
+    · obtain ⟨a, b, _⟩ := h.priced h1 h2
+      exact Or.inr ⟨a, b⟩
+
+theorem acceptPostings_wf (div : Dec → Dec → Dec) (st st' : Settings) (r : RawTxn) (all : List Posting)
+    (h : acceptPostings st r.posts r.last = .ok (all, st')) (hl : RawLex r)
+    (hd : ∀ p ∈ all, p.isTotal = false → NumWF (div p.txnAmount p.amount)) :
+    all ≠ [] ∧ ∀ p ∈ all, PostingWF div p := by
+  unfold acceptPostings at h
+  split at h
+  · cases h
+  · cases h
+  · rename_i ps st1 hps
+    have hgood : ∀ q ∈ ps, (q.isTotal = false → NumWF (div q.txnAmount q.amount)) →
+        PostingWF div q ∧ q.txnAmount.scale ≤ 28 ∧ q.txnAmount.coeff ≤ max96 := by
+      intro q hq hdq
+      obtain ⟨rp, hrp, s1, s2, hf⟩ := mapMS_ok handlePosting r.posts st st1 ps hps q hq
+      exact handlePosting_wf div s1 s2 rp q hf (hl.posts rp hrp) hdq
+    split at h
+    · cases h
+    · rename_i p0 rest
+      split at h
+      · cases h
+        exact ⟨by simp, fun p hp => (hgood p hp (hd p hp)).1⟩
+      · rename_i a cmt hlast
+        split at h
+        · exact absurd h (Outcome.inexact_ne_ok _ _)
+        · rename_i s hs
+          split at h
+          · cases h
+          · cases h
+          · rename_i a' st2 hacct
+            obtain ⟨l, hlp, hle⟩ := (Outcome.map_ok _ _ _).mp h
+            cases hle
+            have hmain : ∀ q ∈ p0 :: rest, PostingWF div q ∧ q.txnAmount.scale ≤ 28 ∧ q.txnAmount.coeff ≤ max96 :=
+              fun q hq => hgood q hq (hd q (List.mem_append_left _ hq))
+            refine ⟨by simp, ?_⟩
+            intro p hp
+            rcases List.mem_append.mp hp with hp | hp
+            · exact (hmain p hp).1
+            · simp at hp; subst hp
+              obtain ⟨rfl, hnz⟩ := C01.mkPosting_ok _ _ hlp
+              have ha := C01.gocta_acct _ _ _ _ _ hacct
+              subst ha
+              obtain ⟨hal, hcl⟩ := hl.last a' cmt hlast
+              have hs' : Dec.sumFrom Dec.zero ((p0 :: rest).map (fun q => q.txnAmount)) = some s := hs
+              have hsum := sumFrom_wf ((p0 :: rest).map (fun q => q.txnAmount)) Dec.zero s (by simp [Dec.zero]) (by simp [Dec.zero, max96])
+                (by
+                  intro d hdm
+                  obtain ⟨q, hq, rfl⟩ := List.mem_map.mp hdm
+                  exact (hmain q hq).2) hs'
+              have hcz : s.coeff ≠ 0 := by
+                intro e
+                apply hnz
+                simp [Dec.units, Dec.negate, e]
+              refine ⟨hal, ⟨by simpa [Dec.negate] using hsum.1, by simpa [Dec.negate] using hsum.2, fun _ => by simpa [Dec.negate] using hcz⟩,
+                ?_, fun e => e, fun _ h => absurd rfl h, hcl⟩
+              exact txnComm_lex div p0 (hmain p0 List.mem_cons_self).1
+
+/-- **C06 `accept_wf`.**  The acceptor turns a lexically well-formed parse tree into a transaction satisfying
+    `WF` (everything the export needs to print it re-parsably): the header is copied, every value-carrying posting
+    keeps its names and numbers, the implicit last posting gets a representable non-zero amount in the
+    transaction commodity.  `hd`: the unit prices the export will print (`div`) are representable numbers. -/
+theorem accept_wf (div : Dec → Dec → Dec) (st st' : Settings) (r : RawTxn) (t : Txn)
+    (h : acceptTxn st r = .ok (t, st')) (hl : RawLex r)
+    (hd : ∀ p ∈ t.posts, p.isTotal = false → NumWF (div p.txnAmount p.amount)) : WF div t := by
+  unfold acceptTxn at h
+  split at h
+  · cases h
+  · cases h
+  · split at h
+    · cases h
+    · cases h
+    · rename_i ps st2 hps
+      split at h
+      · cases h
+      · split at h
+        · cases h
+        · split at h
+          · exact absurd h (Outcome.inexact_ne_ok _ _)
+          · split at h
+            · cases h
+              obtain ⟨hne, hall⟩ := acceptPostings_wf div _ _ r _ hps hl hd
+              exact ⟨hl.ts, hl.header, hne, hall⟩
+            · cases h
+
+theorem unitNE_of_lex (rp : RawPosting) (h : RawPostingLex rp) : UnitNE rp.unit := by
+  intro u hu
+  obtain ⟨huid, _, hcl⟩ := h.unit u hu
+  exact ⟨identWF_ne_empty _ huid, fun v hv => identWF_ne_empty _ (hcl v hv).1⟩
+
 /-! ## composition -/
 
 /-- **C06 `roundtrip_layout`.**  Take the transactions a journal was accepted to, print them (in acceptance
@@ -436,6 +654,23 @@ theorem roundtrip_layout (cfg : Time.TsCfg) (L : Layout) (hL : LayoutOK L) (div 
   have := reaccept_journal div st st' rs (t0 :: tl) hacc hne hdiv
   simp only [List.map_cons] at this
   rw [this]; rfl
+
+/-- `roundtrip_layout` with its hypotheses discharged from the lexical well-formedness of the *input* parse
+    trees (`accept_wf`): what remains assumed is the contract of the division (`DivExact`, and that the printed
+    unit prices are representable numbers) and `RawLex` of the parser's output (not proved here: the inverse
+    direction of the per-parser lemmas; the tie checks the model's round trip on every case). -/
+theorem roundtrip_accepted (cfg : Time.TsCfg) (L : Layout) (hL : LayoutOK L) (div : Dec → Dec → Dec)
+    (st st' : Settings) (rs : List RawTxn) (ts : List Txn)
+    (hacc : acceptJournal st rs = .ok (ts, st')) (hrs : rs ≠ []) (hlex : ∀ r ∈ rs, RawLex r)
+    (hdw : ∀ t ∈ ts, ∀ p ∈ t.posts, p.isTotal = false → NumWF (div p.txnAmount p.amount))
+    (hdiv : ∀ t ∈ ts, ∀ p ∈ t.posts, DivExact div p) :
+    loadText cfg st (printL L div ts) = loadJournal st rs := by
+  have hw : ∀ t ∈ ts, WF div t := by
+    intro t ht
+    obtain ⟨r, hr, s1, s2, hf⟩ := mapMS_ok acceptTxn rs st st' ts hacc t ht
+    exact accept_wf div s1 s2 r t hf (hlex r hr) (hdw t ht)
+  exact (roundtrip_layout cfg L hL div st st' rs ts hacc hrs
+    (fun r hr rp hrp => unitNE_of_lex rp ((hlex r hr).posts rp hrp)) hw hdiv).1
 
 /-- **C06 `export_fixpoint_partial`.**
     Full statement: `identityExport (load (identityExport ts)) = identityExport ts` for every accepted journal.
